@@ -2014,7 +2014,7 @@ def draw_borders_case(table, pipeline=None):
     return args, out, tags
 
 
-def painted_violation(table, tol=1e-6, known=True, header_declared=False):
+def painted_violation(table, tol=1e-6, known=True, header_declared=False, continued_top=None, cut_bottom=None):
     """Painting agrees with layout: along every edge of a repeated header / footer cell, and along the
     edges of body cells that do not touch the header, the footer or the fragment's ends, the widest line
     painted is twice the used border width the cell was laid out with (border_halves, on what is
@@ -2121,6 +2121,20 @@ def painted_violation(table, tol=1e-6, known=True, header_declared=False):
     def visible(entry):
         return entry[1][1] > 0 and getattr(entry[1][2], 'alpha', 1) != 0
 
+    # the outer lines of the body are left open only where a row is really cut by the page break:
+    # `continued_top` / `cut_bottom` say whether the first body row continues a row cut by the previous
+    # page / the last one is cut by this page's end (None = not known: not judged)
+    body_offset = (table.skipped_rows - header_rows) if table.skipped_rows else 0
+    for known_uncut, shown, y_line, flag, name in (
+            (continued_top is False, header_rows, 0, 'skip_cell_border_top', 'top'),
+            (cut_bottom is False, footer_rows, len(rows), 'skip_cell_border_bottom', 'bottom')):
+        if known_uncut and not shown and horizontal_grid and 0 <= y_line + body_offset < len(horizontal_grid):
+            for x in range(n):
+                entry = horizontal_grid[y_line + body_offset][x]
+                if visible(entry) and hor.get((y_line, x)) is None:
+                    return (f'collapsed borders: the {name} line of the fragment (column {x}) has the border '
+                            f'{entry[1][:2]} in the grid but is not painted, although the row next to it is not '
+                            f'cut by a page break ({flag} = {getattr(table, flag, None)})')
     for present, grid_line, y_line, name in ((header_rows, 0, 0, 'top line of the repeated header'),
                                              (footer_rows, -1, len(rows), 'bottom line of the repeated footer')):
         if present and horizontal_grid:
